@@ -239,6 +239,51 @@ func weaken(r *rng, g *G) *G {
 	return w
 }
 
+// focus keeps only the part of g within `hops` out-edge steps of the given nodes (plus the direct predecessors of
+// those nodes): the induced subgraph with unchanged statuses.  It satisfies the invariant when g does and is below g.
+func focus(g *G, roots []*N, hops int) *G {
+	keep := map[*N]bool{}
+	frontier := []*N{}
+	for _, r := range roots {
+		if _, ok := escape.VerifStatus(g, r); ok && !keep[r] {
+			keep[r] = true
+			frontier = append(frontier, r)
+		}
+	}
+	for h := 0; h < hops; h++ {
+		var next []*N
+		for _, n := range frontier {
+			ds, _ := escape.VerifOut(g, n)
+			for _, d := range ds {
+				if !keep[d] {
+					keep[d] = true
+					next = append(next, d)
+				}
+			}
+		}
+		frontier = next
+	}
+	w := escape.NewEmptyEscapeGraph(escape.VerifNodeGroupOf(g))
+	for _, n := range escape.VerifNodes(g) {
+		if !keep[n] {
+			continue
+		}
+		if s, ok := escape.VerifStatus(g, n); ok {
+			escape.VerifRawSetStatus(w, n, s)
+		}
+		if escape.VerifHasEdgeKey(g, n) {
+			escape.VerifRawEdgeKey(w, n)
+		}
+		ds, fs := escape.VerifOut(g, n)
+		for i, d := range ds {
+			if keep[d] {
+				escape.VerifRawSetEdge(w, n, d, fs[i])
+			}
+		}
+	}
+	return w
+}
+
 // perturb makes a graph that is NOT necessarily well-formed or closed (tests the faithful model only).
 func perturb(r *rng, g *G) *G {
 	w := g.Clone()
@@ -676,7 +721,7 @@ func run(dir string, o *out, r *rng, opt options) (progResult, error) {
 				addCap(fn, "pre", rec.Pre)
 				addCap(fn, "post", rec.Post)
 			}
-			if len(monoSamples) < opt.weakTransfer*4 || r.n(8) == 0 {
+			if len(monoSamples) < 20000 || r.n(8) == 0 {
 				monoSamples = append(monoSamples, rec)
 			}
 		}
@@ -793,37 +838,80 @@ func run(dir string, o *out, r *rng, opt options) (progResult, error) {
 		}
 	}
 
-	// ---- the real transfer function on weakened inputs: w <= pre  =>  T(w) <= T(pre)
-	for i := 0; i < opt.weakTransfer && len(monoSamples) > 0; i++ {
-		rec := monoSamples[r.n(len(monoSamples))]
+	// ---- the real transfer function on smaller and larger inputs:  lo <= hi  =>  T(lo) <= T(hi)
+	//      (a) lo = random weakening of a recorded pre-graph, hi = the pre-graph
+	//      (b) lo = the part of the pre-graph around the instruction's operands, hi = the pre-graph
+	//      (c) lo = the pre-graph, hi = the pre-graph merged with another captured graph of the same function
+	// stratified by instruction kind (round-robin over the kinds), so that rare kinds are exercised in every run
+	byKind := map[string][]escape.VerifMonoRecord{}
+	for _, rec := range monoSamples {
+		byKind[instrKind(rec.Instr)] = append(byKind[instrKind(rec.Instr)], rec)
+	}
+	var kinds []string
+	for k := range byKind {
+		kinds = append(kinds, k)
+	}
+	sort.Strings(kinds)
+	for i := 0; i < opt.weakTransfer && len(kinds) > 0; i++ {
+		l := byKind[kinds[i%len(kinds)]]
+		rec := l[r.n(len(l))]
 		if !isInv(rec.Pre) {
 			continue
 		}
-		w := weaken(r, rec.Pre)
-		var tp, tw, tp2 *G
+		lo, hi := rec.Pre, rec.Pre
+		variant := "weakened"
+		switch (i / len(kinds)) % 3 {
+		case 0:
+			lo = weaken(r, rec.Pre)
+		case 1:
+			variant = "focused"
+			lo = focus(rec.Pre, escape.VerifOperandNodes(base, rec.Instr), 1+r.n(2))
+		case 2:
+			variant = "enlarged"
+			l := perFunc[rec.Instr.Parent().String()]
+			if len(l) == 0 {
+				continue
+			}
+			other := l[r.n(len(l))].g
+			if !isInv(other) {
+				continue
+			}
+			hi = merged(rec.Pre, other)
+		}
+		if !isInv(lo) || !isInv(hi) || !le(lo, hi) {
+			o.stats["transfer_variant_skipped"]++
+			continue
+		}
+		var thi, tlo, thi2 *G
 		panicked, msg := safely(func() {
-			tp = escape.VerifTransfer(base, rec.Instr, rec.Pre)
-			tw = escape.VerifTransfer(base, rec.Instr, w)
-			tp2 = escape.VerifTransfer(base, rec.Instr, rec.Pre)
+			thi = escape.VerifTransfer(base, rec.Instr, hi)
+			tlo = escape.VerifTransfer(base, rec.Instr, lo)
+			thi2 = escape.VerifTransfer(base, rec.Instr, hi)
 		})
 		res.WeakTransfer++
+		o.stats["transfer_"+variant]++
 		if panicked {
 			res.WeakPanics++
 			o.stats["weak_transfer_panics"]++
 			if o.stats["weak_transfer_panics"] <= 5 {
-				fmt.Fprintf(o.viol, "INFO transfer function panicked on a weakened graph at %s: %s\n----\n", describeInstr(prog, rec.Instr), msg)
+				fmt.Fprintf(o.viol, "INFO transfer function panicked on a %s graph at %s: %s\n----\n", variant, describeInstr(prog, rec.Instr), msg)
 			}
 			continue
 		}
-		if !tp.Matches(tp2) {
+		if !thi.Matches(thi2) {
 			o.stats["weak_transfer_unstable"]++
 			continue
 		}
-		if le(w, rec.Pre) && !le(tw, tp2) {
-			_, reason := tw.LessEqual(tp2)
-			o.addViolation("mono-weakened-"+instrKind(rec.Instr), "w <= pre but T(w) !<= T(pre) at "+describeInstr(prog, rec.Instr)+": "+reason,
-				fmt.Sprintf("instruction: %s\nA (weakened pre):\n%sB (pre):\n%sC (T(A)):\n%sD (T(B)):\n%s", describeInstr(prog, rec.Instr),
-					graphLines(w), graphLines(rec.Pre), graphLines(tw), graphLines(tp2)))
+		if !le(tlo, thi2) {
+			_, reason := tlo.LessEqual(thi2)
+			key := "mono-" + variant + "-" + instrKind(rec.Instr)
+			if k := monoKey(escape.VerifMonoViolation{Instr: rec.Instr, Old: escape.VerifMonoRecord{Instr: rec.Instr, Pre: lo, Post: tlo},
+				New: escape.VerifMonoRecord{Instr: rec.Instr, Pre: hi, Post: thi2}}); !strings.HasPrefix(k, "mono-"+instrKind(rec.Instr)) {
+				key = k
+			}
+			o.addViolation(key, "A <= B but T(A) !<= T(B) ("+variant+" input) at "+describeInstr(prog, rec.Instr)+": "+reason,
+				fmt.Sprintf("instruction: %s\nA (smaller pre):\n%sB (larger pre):\n%sC (T(A)):\n%sD (T(B)):\n%s", describeInstr(prog, rec.Instr),
+					graphLines(lo), graphLines(hi), graphLines(tlo), graphLines(thi2)))
 		}
 	}
 	escape.VerifMonoEnable(false)
@@ -926,6 +1014,16 @@ func uniqLines(s string) string {
 // lacks is such a tmp node (kind Var, debug string "tmp") and the old output without them IS below the new one.
 func monoKey(v escape.VerifMonoViolation) string {
 	generic := "mono-" + instrKind(v.Instr)
+	if k := freshTmpClass(v); k != "" {
+		return k
+	}
+	if k := freshSubnodeLoadClass(v); k != "" {
+		return k
+	}
+	return generic
+}
+
+func freshTmpClass(v escape.VerifMonoViolation) string {
 	inNew := map[*N]bool{}
 	for _, n := range escape.VerifNodes(v.New.Post) {
 		inNew[n] = true
@@ -936,27 +1034,102 @@ func monoKey(v escape.VerifMonoViolation) string {
 		if !inNew[n] {
 			info := escape.VerifInfo(n)
 			if info.Debug != "tmp" || info.Kind != 5 {
-				return generic
+				return ""
 			}
 			missing = append(missing, n)
 		}
 	}
 	if len(missing) == 0 {
-		return generic
+		return ""
 	}
-	for _, m := range missing {
-		escape.VerifRawDelStatus(reduced, m)
-		escape.VerifRawDelEdgeKey(reduced, m)
-		for _, n := range escape.VerifNodes(reduced) {
-			if escape.VerifHasEdgeKey(reduced, n) {
-				escape.VerifRawSetEdge(reduced, n, m, 0)
-			}
-		}
-	}
+	removeNodes(reduced, missing)
 	if le(reduced, v.New.Post) {
 		return "mono-fresh-tmp-node"
 	}
-	return generic
+	return ""
+}
+
+func removeNodes(g *G, ms []*N) {
+	for _, m := range ms {
+		escape.VerifRawDelStatus(g, m)
+		escape.VerifRawDelEdgeKey(g, m)
+		for _, n := range escape.VerifNodes(g) {
+			if escape.VerifHasEdgeKey(g, n) {
+				escape.VerifRawSetEdge(g, n, m, 0)
+			}
+		}
+	}
+}
+
+// freshSubnodeLoadClass recognises the second known defect class (EscapeGraph.Call, rule "propagate load nodes
+// that are referenced by escaped nodes"): the old output has an EXTERNAL edge src -> L to a load node L where src did
+// not exist in the old input (it was created by the call itself, so the rule consulted the status in the partially
+// updated graph) but exists with status Local in the new input (so the rule consulted pre.status and skipped it).
+// The class is accepted only if the old output without these edges (and without load nodes that only they reach)
+// IS below the new output.
+func freshSubnodeLoadClass(v escape.VerifMonoViolation) string {
+	kind := instrKind(v.Instr)
+	if kind != "Call" && kind != "Go" && kind != "Defer" {
+		return ""
+	}
+	reduced := v.Old.Post.Clone()
+	found := false
+	for _, src := range escape.VerifNodes(v.Old.Post) {
+		ds, fs := escape.VerifOut(v.Old.Post, src)
+		for i, d := range ds {
+			if fs[i]&2 == 0 || escape.VerifInfo(d).Kind != 2 {
+				continue
+			}
+			if nf, ok := flagsOf(v.New.Post, src, d); ok && nf&2 != 0 {
+				continue // the edge is present in the new output
+			}
+			_, inOldPre := escape.VerifStatus(v.Old.Pre, src)
+			sNew, inNewPre := escape.VerifStatus(v.New.Pre, src)
+			if inOldPre || !inNewPre || sNew != 0 {
+				return ""
+			}
+			found = true
+			escape.VerifRawSetEdge(reduced, src, d, fs[i]&^2)
+		}
+	}
+	if !found {
+		return ""
+	}
+	// load nodes of the old output that are absent from the new output and no longer referenced
+	inNew := map[*N]bool{}
+	for _, n := range escape.VerifNodes(v.New.Post) {
+		inNew[n] = true
+	}
+	var drop []*N
+	for _, n := range escape.VerifNodes(reduced) {
+		if inNew[n] || escape.VerifInfo(n).Kind != 2 {
+			continue
+		}
+		referenced := false
+		for _, m := range escape.VerifNodes(reduced) {
+			if _, ok := flagsOf(reduced, m, n); ok {
+				referenced = true
+			}
+		}
+		if !referenced {
+			drop = append(drop, n)
+		}
+	}
+	removeNodes(reduced, drop)
+	if le(reduced, v.New.Post) {
+		return "mono-call-load-on-fresh-subnode"
+	}
+	return ""
+}
+
+func flagsOf(g *G, a, b *N) (int, bool) {
+	ds, fs := escape.VerifOut(g, a)
+	for i, d := range ds {
+		if d == b {
+			return fs[i], true
+		}
+	}
+	return 0, false
 }
 
 // ---------------------------------------------------------------------------------------------- CPU-time watchdog
